@@ -29,6 +29,10 @@ def cases(tier, seed):
                 out.append({"name": "cos.race/%s/%s/resub=%s" % (direction, st or "-", int(resub)), "kind": "sweep",
                             "dir": direction, "earlier": st, "resub": resub,
                             "cap": 40 if tier == "quick" else None})
+    for inner in ("map", "retry", "throttle", "poll", "timeout", "flat_map"):
+        for direction in ("submit|shutdown", "shutdown|submit"):
+            out.append({"name": "cos.layered/%s/%s" % (inner, direction), "kind": "layered", "inner": inner, "dir": direction,
+                        "earlier": "pp", "resub": False, "cap": 30 if tier == "quick" else None})
     nf = 12 if tier == "quick" else 96
     for i in range(nf):
         out.append({"name": "cos.fuzz/%d" % i, "kind": "fuzz", "n": 25 if tier == "quick" else 60, "idx": i})
@@ -97,6 +101,66 @@ class CosScenario(object):
 
     def oracle(self, ctx, res, info):
         oracle(ctx, res, self.case["name"].split("/")[1] + "/" + self.case["earlier"], info)
+
+
+class CountingCancel(object):
+    """Counts cancel() calls arriving at a future of any class (instance attribute shadows the method)."""
+
+    def __init__(self, f, tag):
+        self.f, self.tag = f, tag
+        self.calls = []
+        self.orig = f.cancel
+        f.cancel = self
+        f.cancel_calls = self.calls
+        f.tag = tag
+
+    def __call__(self):
+        s = LOG.add("lib.cancel", tag=self.tag)
+        r = self.orig()
+        self.calls.append((s, 0.0, r))
+        return r
+
+
+class LayeredScenario(CosScenario):
+    """cancel_on_shutdown over another library layer: the futures it hands out are library futures."""
+
+    def setup(self):
+        from .. import stacks
+        ctx = Ctx()
+        t = self.case["inner"]
+        L = {"t": t, "k": 0}
+        if t == "retry":
+            L.update(max_attempts=2, sleep=0.5)
+        if t == "throttle":
+            L.update(count=1)
+        if t == "poll":
+            L.update(interval=5.0, mode="never")
+        if t == "timeout":
+            L.update(timeout=500.0)
+        b = stacks.build(ctx, {"base": "me", "layers": [L, {"t": "cos", "k": 1}]})
+        ctx.me, ctx.ex = b.base, b.top
+        ctx.returned = []
+        ctx.submit_results = []
+        ctx.n = 0
+        for ch in self.case["earlier"]:
+            self.do_submit(ctx, "early")
+        instr.advance(0.05)
+        return ctx
+
+    def do_submit(self, ctx, who):
+        try:
+            f = call("submit", ctx.ex.submit, lambda: None, _tag=who)
+        except RuntimeError as e:
+            ctx.submit_results.append((who, "raised", str(e)))
+            return None
+        ctx.n += 1
+        CountingCancel(f, "lib#%d" % ctx.n)
+        ctx.returned.append(f)
+        ctx.submit_results.append((who, "future", f))
+        return f
+
+    def finish(self, ctx):
+        instr.advance(0.05)
 
 
 def oracle(ctx, res, label, info):
@@ -197,7 +261,10 @@ def run_fuzz(case, res):
 
 
 def run_case(case, res):
-    if case["kind"] == "sweep":
+    if case["kind"] == "layered":
+        rng = random.Random("c10/%s/%s" % (case["seed"], case["name"]))
+        Sweep(LayeredScenario(case), res, "vt", case["name"]).run(case.get("cap"), rng)
+    elif case["kind"] == "sweep":
         rng = random.Random("c10/%s/%s" % (case["seed"], case["name"]))
         Sweep(CosScenario(case), res, "rt", case["name"]).run(case.get("cap"), rng)
     else:
